@@ -555,16 +555,9 @@ func signature(d *Decl, v verdict) string {
 		if v.near {
 			return "float-rounding-visible"
 		}
-		if v.kind == "value" && e.K == "conv" && isFloatType(e.Kind) && ratDoubleRounding(e) {
-			// a rational that is not a float64 is rounded to 512 bits first, then to the float type
-			return "rat-float-double-rounding"
-		}
 		if d.T != "" {
 			if w := compare((&Decl{E: e}).Program()); w.kind == "" && w.soft {
 				return "float-rounding-visible"
-			}
-			if v.kind == "value" && isFloatType(d.T) && ratDoubleRounding(&Expr{K: "conv", Kind: d.T, X: e}) {
-				return "rat-float-double-rounding"
 			}
 		}
 	}
@@ -874,6 +867,13 @@ var corpus = []string{
 	"const C = 0x1p600 >> 200",
 	"const C = 1e400 >> 1",
 	"const C = 1e400 >> 1000",
+	// regressions of fix 9f165da (a rational that is not a float64 was rounded to 512 bits first, then to the float type)
+	"const C = float64(1e-400 + 9007199254740993.0)",
+	"const C = float32(1e-400 + 16777217.0)",
+	"const C float64 = 1e-400 + 9007199254740993.0",
+	"const C = complex64(1e-400 + 16777217.0)",
+	"const C = float64(1e400 / 3)",
+	"const C = float64(-1e-400 / 3)",
 }
 
 // oracleDefect recognises the one input class on which go/constant itself is
@@ -904,85 +904,4 @@ func goType(e *Expr) string {
 
 func isFloatType(t string) bool {
 	return t == "float32" || t == "float64" || t == "complex64" || t == "complex128"
-}
-
-// descParts returns the descriptions of the real and imaginary part of a number constant.
-func descParts(desc string) []string {
-	if strings.HasPrefix(desc, "Cplx:") {
-		if p := splitCplx(desc[5:]); p != nil {
-			return p
-		}
-		return nil
-	}
-	return []string{desc, "I64:0"}
-}
-
-// ratDoubleRounding decides, by recomputation, whether the value difference of
-// the conversion e = T(U) to a float or complex type is exactly the recorded
-// finding: U is held exactly by Scriggo (same value as go/constant), Go's
-// result is U rounded once to the float type, and Scriggo's result is what
-// rounding a ratConst part that is not a float64 to 512 bits first and then
-// to the float type gives (every other part rounded once).
-func ratDoubleRounding(e *Expr) bool {
-	if e.X.HasRef() {
-		return false
-	}
-	up := (&Decl{E: e.X}).Program()
-	u, gu := scEval(up), goEval(up)
-	rp := (&Decl{E: e}).Program()
-	r, gr := scEval(rp), goEval(rp)
-	if u.Err != "" || gu.Err != "" || r.Err != "" || gr.Err != "" || !u.IsNum || !r.IsNum || gu.Re == nil || gr.Re == nil {
-		return false
-	}
-	zero := new(big.Rat)
-	or0 := func(x *big.Rat) *big.Rat {
-		if x == nil {
-			return zero
-		}
-		return x
-	}
-	if u.Re.Cmp(gu.Re) != 0 || or0(u.Im).Cmp(or0(gu.Im)) != 0 {
-		return false // the operand itself differs
-	}
-	is32 := e.Kind == "float32" || e.Kind == "complex64"
-	once := func(q *big.Rat) *big.Rat {
-		if is32 {
-			f, _ := q.Float32()
-			return new(big.Rat).SetFloat64(float64(f))
-		}
-		f, _ := q.Float64()
-		return new(big.Rat).SetFloat64(f)
-	}
-	twice := func(q *big.Rat) *big.Rat {
-		b := new(big.Float).SetPrec(512).SetRat(q)
-		if is32 {
-			f, _ := b.Float32()
-			return new(big.Rat).SetFloat64(float64(f))
-		}
-		f, _ := b.Float64()
-		return new(big.Rat).SetFloat64(f)
-	}
-	parts := descParts(u.Desc)
-	if parts == nil {
-		return false
-	}
-	vals := []*big.Rat{u.Re, or0(u.Im)}
-	got := []*big.Rat{r.Re, or0(r.Im)}
-	want := []*big.Rat{gr.Re, or0(gr.Im)}
-	differs := false
-	for i := 0; i < 2; i++ {
-		exp := once(vals[i])
-		if strings.HasPrefix(parts[i], "Rat:") {
-			if _, exact := vals[i].Float64(); !exact {
-				exp = twice(vals[i])
-			}
-		}
-		if exp == nil || got[i].Cmp(exp) != 0 || want[i].Cmp(once(vals[i])) != 0 {
-			return false
-		}
-		if got[i].Cmp(want[i]) != 0 {
-			differs = true
-		}
-	}
-	return differs
 }
